@@ -27,6 +27,7 @@ RULE = ("part1: enumerated table SeqNum value a x offset k (k in 0..130 and 3260
         "part3: datagram arrival histories at a real ConnectionBase; every built header's ack/ack_bits vs the "
         "model's accepted set; non-trivial = history with a gap, a reordering and a duplicate.")
 RULE += (" " + "msgwin: a message that was never received is never treated as a duplicate, inside the 256-entry message window or older than it (a retransmission keeps its message number however many newer messages overtook it); only 'received before and now older than the window' is left to C04 (D3).")
+RULE += (" " + 'Round-8 additions: part ackread - a real connection sends 1-50 datagrams (counter positioned at drawn / enumerated values around 65535 -> 1), then one genuine peer datagram arrives whose ack field names one of them with a drawn 32-bit bitmap: exactly the named datagrams resolve with callback True, the others stay pending (integer-line model; non-trivial = the bitmap names datagrams on the other side of the wrap); hdrworld starts at the handshake (the first datagram after the server hello names it) with connect callbacks that raise in half of the cases.')
 ASSUMPTIONS = [
     "sequence offsets are < half the ring (|k| <= 32767), the property's own precondition",
     "the reference models (ring arithmetic, window as a set) are written from docs/network.md and are trusted",
